@@ -1101,6 +1101,10 @@ func (r *UnitRun) haveClauses(st *State, vals []Val, n *ast.ReturnStmt, early bo
 						if os.Getenv("QV_DEBUG") != "" {
 							fmt.Fprintf(os.Stderr, "have %d of %s skipped: %s\n", i, r.unit.Name, string(tl))
 						}
+						if r.haveSkipped == nil {
+							r.haveSkipped = map[int]string{}
+						}
+						r.haveSkipped[i] = string(tl)
 						return // a local is not defined on this path
 					}
 					panic(x)
@@ -1123,6 +1127,10 @@ func (r *UnitRun) haveClauses(st *State, vals []Val, n *ast.ReturnStmt, early bo
 			}
 			r.oblige(ost, "have", fmt.Sprintf("%d", i), goal, node, "intermediate fact: "+c.Text, c.Tags)
 			st.assume(goal)
+			if r.haveDone == nil {
+				r.haveDone = map[int]bool{}
+			}
+			r.haveDone[i] = true
 		}()
 	}
 }
